@@ -139,9 +139,36 @@ def checkGrp : P String := do
   expect "AFTER"
   let after ← pFrame
   if after != f then c04 := firstFail c04 "fail:source-changed"
+  -- aggregates of one grouping are independent frames
+  let mut c02 := "ok"
+  expect "REAGG"
+  let ra ← next
+  if ra == "ok" then
+    let rb ← next
+    if rb == "ok" then
+      let cmp ← next
+      if cmp != "same" then
+        c02 := "fail:second-aggregate-sees-edit-of-first-result"
+        c05 := firstFail c05 "fail:second-aggregate-sees-edit-of-first-result"
+    else if rb != "err" then c02 := s!"fail:reaggregate-{rb}"
+  -- grouping again after an in-place edit sees the edit
+  expect "REGROUP"
+  let rg ← next
+  if rg != "skip" then
+    let f2 ← pFrame
+    if rg == "ok" then
+      let d2 ← pGrpDump
+      let rows2 := (Spec.rowsOf f2).map normRow
+      let spec2 := Spec.groupsSpec keys rows2
+      let collide2 := list && Spec.rendersCollide ω keys rows2
+      let good2 := d2.ng == spec2.length && d2.order.length == spec2.length &&
+        (d2.order.zip spec2).all (fun (d, s) => d.2 == s.2)
+      if !good2 && !collide2 then c04 := firstFail c04 "fail:stale-or-wrong-partition-after-edit"
+    else if rg == "panic" then c04 := firstFail c04 "fail:regroup-panic"
+  let c20 := if status == "panic" then "fail:panic" else "ok"
   -- the recorded finding K1: key given as a list, two distinct tuples render alike, implementation = model
   if (c04 != "ok" || c05 != "ok") && collide && corr == "ok" then known := " known=K1"
   let nontriv := specGroups.length ≥ 2 && rows.length > specGroups.length
-  pure s!"c04={c04} c05={c05} corr={corr}{known} nontrivial={if nontriv then 1 else 0} st_groups={min specGroups.length 6} st_list={if list then 1 else 0} st_collide={if collide then 1 else 0}"
+  pure s!"c04={c04} c05={c05} c02={c02} c20={c20} corr={corr}{known} nontrivial={if nontriv then 1 else 0} st_groups={min specGroups.length 6} st_list={if list then 1 else 0} st_collide={if collide then 1 else 0}"
 
 end Goframe.Driver
